@@ -439,7 +439,17 @@ class Unit:
                                  "spec fn vset_%s_spec(c: Seq<char>) -> bool { %s }\n"
                                  "#[verifier::external_body]\nfn vset_%s_contains(c: &str) -> (r: bool)\n    ensures r == vset_%s_spec(c@)\n{ unimplemented!() }" % (nm, len(elems), nm, cond, nm, nm))
             text_body = pat.sub('', text_body)
-            text_body = re.sub(re.escape(nm) + r'\.contains\(&?([^()]*(?:\([^()]*\))?[^()]*)\)', r'vset_%s_contains(\1)' % nm, text_body)
+            while True:
+                mk = mask(text_body)
+                cm = re.search(r'\b' + re.escape(nm) + r'\s*\.\s*contains\s*\(', mk)
+                if not cm:
+                    break
+                ob = cm.end() - 1
+                cb = match_bracket(mk, ob)
+                argt = text_body[ob + 1:cb].strip()
+                if argt.startswith('&'):
+                    argt = argt[1:].strip()
+                text_body = text_body[:cm.start()] + 'vset_%s_contains(%s)' % (nm, argt) + text_body[cb + 1:]
             log.append(('R6', 'phf_set %s (%d elements) -> generated membership function' % (nm, len(elems)), 1))
         # rewrites
         text_body = apply_standard_rewrites(text_body, log)
